@@ -88,53 +88,23 @@ CLAIMED = {
                   "model correspondence",
         ref="6 C05"),
     "C06": dict(
-        text="Spec.C06.holds (new-data matrix = selected rows of the training matrix) is evaluated by "
-             "the Lean driver on real evaluate_new_data results for 6 row selections per design (single "
-             "rows, subsets that miss levels, permutations, repetitions, shifted ranges), incl. nested / "
-             "interacting scale, bs, poly, center; the exact evaluation model (training path and "
-             "prediction path modelled separately, transform state as a tree mirroring the call tree) is "
-             "compared on the modelled atoms; failures in the Lean-delimited classes D13 (levels= / "
-             "ordered data) and D14 (binary not stateful) are known findings. The model-level theorem "
-             "C06_rows (prediction on any row list of the training frame returns those rows of the "
-             "training matrix) is being proved; until it is merged the level is correspondence + spec.",
+        text="Lean 4 theorems about the evaluation model (training path and prediction path modelled "
+             "separately; transform state is a tree mirroring the lazy call tree): C06_rows - for every "
+             "well-formed frame, every index list (any subset, order, repetition, single row) and every "
+             "design outside the two recorded defect classes, evaluate_new_data on those rows returns "
+             "exactly those rows of the stacked common and group training matrices; built from "
+             "C06_evalArg_rows (first call estimates, later calls reuse: center), C06_rows_comp / _term / "
+             "_group, C06_state_frozen(_seq) (no sequence of evaluations changes the state), "
+             "C06_levels_frozen; counterexamples for D13 and D14 by `decide`, and the guard is exactly "
+             "D13 u D14. Spec.C06.holds is evaluated by the driver on real evaluate_new_data results for "
+             "6 row selections per design incl. nested / interacting scale, bs, poly; the model is "
+             "compared on the modelled atoms.",
         note="Trusted: Lean kernel; numpy/scipy floating point for scale/bs/poly (frozen parameters are "
-             "observed through the row identity itself, tolerance 1e-9).",
-        technique="Lean 4 executable two-path model + row-identity spec on real output + differential "
-                  "correspondence (theorem in progress)",
-        category="translation_validation",
+             "observed through the row identity itself, tolerance 1e-9; their state machines are proved "
+             "frozen in C14); the namespace is assumed to hold scalars / lists / encodings only.",
+        technique="Lean 4 proof (mutual structural induction over the call tree, row-selection lemmas for "
+                  "products / Khatri-Rao / stacking) + row-identity spec on real output + correspondence",
         ref="6 C06"),
-    "C08": dict(
-        text="Spec.C08 (rows permuted by sigma and nothing else changed - labels, levels, slices, kinds, "
-             "fitted transform parameters - under row permutations; nothing changed at all under index "
-             "relabelling, column reordering, added / removed unused columns) is evaluated by the Lean "
-             "driver on pairs of real runs (8 variants per design, incl. non-unique string and unsorted "
-             "float indexes, an all-NaN unused column). Lean theorems about the model: column lookup is "
-             "by name and unaffected by extra or reordered columns (C08_col_lookup_extra / _perm), the "
-             "fitted mean of center is invariant under row permutations and center commutes with them "
-             "(C08_mean_perm, C08_center_perm).",
-        note="Trusted: Lean kernel; the row index does not exist in the model (index relabelling is "
-             "decided by the runs only); permutation invariance of level sorting and of scale/bs/poly "
-             "parameters is observed (tolerance 1e-9), not yet proved; float sums are order dependent at "
-             "rounding level.",
-        technique="relational spec evaluated on pairs of real runs + Lean 4 proof of the order-independent "
-                  "parts of the model",
-        category="translation_validation",
-        ref="6 C08"),
-    "C09": dict(
-        text="Lean 4 model of var_names (CallVarsExtractor over the lazy call tree) and of the NA step of "
-             "design_matrices, with theorems: the visitor finds exactly the variable leaves incl. keyword "
-             "and nested-call arguments (argVars_eq / atomVars_eq, mutual structural induction), drop = "
-             "selected columns restricted to complete rows, error <=> an incomplete selected row, pass "
-             "keeps all rows, other actions refused, unused columns ignored, row alignment of all columns; "
-             "accepted actions regenerated from matrices.py and tied by `decide`. Spec.C09 (used variables "
-             "from the AST, drop run = run on the filtered frame, error policy, pass rule against the "
-             "imputed reference) is evaluated by the driver on real runs over generated missingness "
-             "patterns in used and unused columns.",
-        note="Trusted: Lean kernel; translator; pandas isna / boolean selection as modelled; pass is "
-             "judged only for missing numeric variables in plain variables / pointwise calls (a missing "
-             "categorical value under pass raises TypeError in sorted(): outside the statement).",
-        technique="Lean 4 proof + relational spec on real runs + model correspondence of var_names / NA step",
-        ref="6 C09"),
     "C10": dict(
         text="Lean 4 theorems about the model of eval_new_data_categoric / GroupSpecificTerm.eval_new_data "
              "/ Config: error mode raises iff a value is unseen (C10_error_iff); in warning/silent mode the "
